@@ -325,6 +325,10 @@ func (x *run) runWriter(idx int, cs *ClientState) {
 			switch op.Op {
 			case "write":
 				n := op.N
+				histPos := pos
+				if op.Hist {
+					pos = 0
+				}
 				if pos+n > len(input) {
 					n = len(input) - pos
 				}
@@ -344,6 +348,9 @@ func (x *run) runWriter(idx int, cs *ClientState) {
 				if wn > 0 && wn <= n {
 					acc = input[pos : pos+wn]
 					pos += wn
+				}
+				if op.Hist {
+					pos = histPos
 				}
 			case "readfrom":
 				n := op.N
